@@ -340,6 +340,25 @@ def brute_count(spec):
             cost = sum(c[a][b] for a, b in zip(tour, tour[1:]))
             best = cost if best is None else min(best, cost)
         return best
+    if name == "sports":  # schedules from the definition (a match is an unordered pair), n = 4 only
+        n = spec["n"]
+        if n != 4:
+            return None
+        teams = list(range(n))
+        matchings = [[(0, 1), (2, 3)], [(0, 2), (1, 3)], [(0, 3), (1, 2)]]
+        weeks = [list(p) for m in matchings for p in itertools.permutations(m)]  # period 0 match, period 1 match
+        c = 0
+        for sched in itertools.product(weeks, repeat=n - 1):
+            pairs = [pr for wk in sched for pr in wk]
+            if len(set(pairs)) != len(pairs) or len(pairs) != n * (n - 1) // 2:
+                continue
+            ok = True
+            for p in range(n // 2):
+                for t in teams:
+                    if sum(1 for wk in sched if t in wk[p]) > 2:
+                        ok = False
+            c += ok
+        return c
     if name == "qg5":  # idempotent latin squares satisfying ((b*a)*b)*b = a, from the definition
         n = spec["n"]
         c = 0
